@@ -4,6 +4,7 @@ import copy
 import itertools
 
 from .. import common, options, supplies
+from ..common import violation
 
 PRESETS = ("ms_example_resilient", "yaml_net_baseline")
 
@@ -257,8 +258,72 @@ def explore(pid, tier, seed):
     return cov, vs, errors
 
 
+# ------------------------------------------------------------------ option-level scaling (the multipliers a caller can pass)
+SCALE_OPTIONS = (("GRASSES_PRODUCTION_MULTIPLIER", "grass"), ("CROP_PRODUCTION_MULTIPLIER", "outdoor_crops"))
+
+
+def job_option_scaling(job):
+    """series(option multiplier k) == k x series(no multiplier), month by month, through the real option dispatcher and
+    first-round computation (the reference above takes the dispatcher's constants as given, so it cannot see this)"""
+    iso, pn, h = job
+    np = supplies._S["np"]
+    base = options.clean(options.preset(pn))
+    base["NMONTHS"] = h
+    out = {"v": [], "n": 0, "states": 0}
+
+    def series(o):
+        c, t, res, grass = supplies.first_round(iso, o)
+        return {"grass": np.asarray(grass.kcals, dtype=float), "outdoor_crops": np.asarray(res[1]["outdoor_crops"].production.kcals, dtype=float)}, c
+    try:
+        s0, c0 = series(dict(base))
+        for optkey, name in SCALE_OPTIONS:
+            for k in (0.5, 2.0):
+                o = dict(base)
+                o[optkey] = k
+                s1, _ = series(o)
+                out["n"] += 1
+                out["states"] += h
+                want = s0[name] * k
+                if name == "outdoor_crops":
+                    # year 1 (months 0-7) is not linear in the ratio: only the harvest after May is exposed to the disruption
+                    lo = 8
+                else:
+                    lo = 0
+                bad = np.where(np.abs(s1[name][lo:] - want[lo:]) > 1e-9 * max(1.0, float(np.abs(want).max())))[0]
+                if len(bad):
+                    m = int(bad[0]) + lo
+                    out["v"].append(violation("option_multiplier_scales_series", {"iso3": iso, "preset": pn, "NMONTHS": h, "option": optkey, "factor": k},
+                                              "%s %s=%s: %s month %d is %r, %s x the series without the option is %r (%d months differ)" % (
+                                                  iso, optkey, k, name, m, float(s1[name][m]), k, float(want[m]), len(bad)),
+                                              {"kind": "option_scaling", "iso3": iso, "preset": pn, "NMONTHS": h}))
+    except Exception as e:
+        import traceback
+        return {"error": "%s %s: %r %s" % (iso, pn, e, traceback.format_exc()[-300:])}
+    return out
+
+
+def option_scaling_plan(tier, seed):
+    isos = options.countries()
+    if tier == "quick":
+        sel = ["USA", "IND"] + common.rotate([i for i in isos if i not in ("USA", "IND")], seed, 6)
+        return [(iso, "ms_worst", h) for iso in sel for h in (120,)] + [("WOR", "g_worst", 120)]
+    return [(iso, "ms_worst", h) for iso in isos for h in (48, 120)] + [("WOR", "g_worst", 120)]
+
+
 def run(tier, seed):
     cov, vs, errors = explore("C08", tier, seed)
+    sjobs = option_scaling_plan(tier, seed)
+    sres = common.pmap(job_option_scaling, sjobs, init_fn=supplies.init, chunksize=1)
+    errors = errors + [r["error"] for r in sres if "error" in r]
+    for r in sres:
+        vs.extend(r.get("v", []))
+    ns = sum(r.get("n", 0) for r in sres)
+    cov["executions"] += ns
+    cov["traces_validated_against_impl"] += ns
+    cov["states"] += sum(r.get("states", 0) for r in sres)
+    cov["transitions"] += sum(r.get("states", 0) for r in sres)
+    cov["option_scaling_executions"] = ns
+    cov["bound"]["option_scaling"] = "%d (country, preset, horizon) x {grass, crop} production multiplier x {0.5, 2}: series == factor x series without the option" % len(sjobs)
     cov["oracle"] = ("reference series written from the documentation: baseline x seasonality share of calendar month (4+i) mod 12 x "
                      "ratio of model year (blocks 8,12,...) x (1 - distribution waste); delay-then-ramp tables; stock formula; "
                      "length == NMONTHS (growth factors: at least NMONTHS), finite, >= 0; homogeneity under baseline x {0.5, 3}")
@@ -271,6 +336,8 @@ def run(tier, seed):
 
 def replay(rp, pid="C08"):
     supplies.init()
+    if rp["kind"] == "option_scaling":
+        return job_option_scaling((rp["iso3"], rp["preset"], rp["NMONTHS"])).get("v", [])
     if rp["kind"] == "first_round":
         vs, c, tc, _ = supplies.check_first_round(rp["iso3"], rp["opts"], want=(pid,))
         if pid == "C08":
